@@ -205,6 +205,7 @@ package core
 
 //@ func SRespCodec.readReply
 //@   props C02 C07 C11 C13
+//@   unreachable return 20
 //@   modifies buf.r
 //@   requires buf != nil && codec.bwf(buf)
 //@   ensures[wf] codec.bwf(buf) && buf.buf == old(buf.buf) && buf.r >= old(buf.r)
@@ -271,6 +272,7 @@ package core
 
 //@ func SRespCodec.parseMGet
 //@   props C07 C11
+//@   unreachable return 0
 //@   modifies codec.buffer.r, codec.buffer.buf
 //@   requires f != nil && arrhdr(f.RspBody) && value_ok(f.RspBody, 0) && value_end(f.RspBody, 0) == len(f.RspBody) && allbulk(f.RspBody)
 //@   ensures[len] len(result) == arrn(f.RspBody)
@@ -334,6 +336,7 @@ package core
 //@ define split(m) = m.Type == codec.ReqMget || m.Type == codec.ReqMset || m.Type == codec.ReqDel
 //@ define redirect(f) = f.Type == codec.RspMoved || f.Type == codec.RspAsk
 
+//@ define spliterrc(c, f) = f.RspBody[0] == '-' && len(f.RspBody) <= EngineGlobal.sCodec.MsgMaxLength && old(hd(c).Error) == "" && split(f.Peer)
 //@ func conn.sread
 //@   props C02 C03 C07 C11 C13 C16
 //@   modifies codec.buffer.r, codec.buffer.buf, c.inFragQueue.head, c.inFragQueue.tail, c.inFragQueue.count, Frag.next, Frag.prev
@@ -348,6 +351,7 @@ package core
 //@       && (forall s int32 :: has(f.Peer.Frags, s) ==> (has(f.Peer.Body, s) && f.Peer.Body[s] != nil))
 //@       && (forall s int32 :: (has(f.Peer.Body, s) && f.Peer.Body[s] == f) ==> len(f.Peer.Frags[s]) == arrn(f.RspBody))
 //@   assume at call SRespCodec.Del#0 :: intreply(f.RspBody)
+//@   assert at call Error.Bytes :: f.Peer.RspBody == nil || f.RspBody.base != f.Peer.RspBody.base
 //@   ensures[wf] fwf(c.inFragQueue)
 //@   ensures[head@C03] (err == nil || err == codec.MovedOrAsk) ==> f == old(hd(c)) && f != nil
 //@   ensures[redirect@C13] err == codec.MovedOrAsk ==> redirect(f) && f.Owner != nil && f.Peer != nil && f.Done == old(hd(c).Done)
@@ -368,3 +372,7 @@ package core
 //@   loop 0
 //@     modifies Frag.Done
 //@     invariant forall k int32 :: visited(k) ==> msg.Body[k].Done
+//@     invariant msg == f.Peer && msg.Error == f.Error
+//@     invariant spliterrc(c, f) ==> len(f.RspBody) == len(f.Error) && (forall k int :: 0 <= k && k < len(f.RspBody) ==> f.RspBody[k] == f.Error[k])
+//@     invariant len(msg.RspBody) == len(msg.Error) && (forall k int :: 0 <= k && k < len(msg.RspBody) ==> msg.RspBody[k] == msg.Error[k])
+//@     invariant spliterrc(c, f) ==> bytes_eq(msg.RspBody, f.RspBody)
